@@ -37,13 +37,17 @@ def run(mod, argv=None):
 
     # 2. Coq build + proof status
     all_ok, buildlog, missing_vo = vf.coq_build()
-    deps, obligations, broken_files = vf.proof_status(mod.PROP_FILE)
+    deps, obligations, broken_files = vf.proof_status(mod.PROP_FILE, buildlog)
+    failed = vf.failed_in_log(buildlog)
     for bf in broken_files:
-        err = ""
-        i = buildlog.find('File "./%s"' % bf)
-        if i >= 0:
-            err = buildlog[i:i + 1200]
-        broken.append(("coq", "%s does not compile: %s" % (bf, err)))
+        if bf in failed:
+            line, stmt, err = failed[bf]
+            broken.append(("coq", "%s, line %d: %s no longer checks: %s" % (bf, line, stmt or "a definition", err)))
+        else:
+            roots = sorted(set(failed) & vf.coq_deps(bf))
+            thms = [n for (v, n, ok) in obligations if v == bf]
+            broken.append(("coq", "%s (%s) is no longer shown: it depends on %s" % (
+                bf, ", ".join(thms[:12]) or "no statements", ", ".join(roots) if roots else "a file that did not compile (no fresh .vo)")))
     model_ok = not any(bf.startswith(("Lib/", "Gen/", "Model/")) for bf in broken_files)
     bad = vf.hygiene()
     for b in bad:
